@@ -6,8 +6,10 @@ import (
 	"compress/zlib"
 	"fmt"
 	"io"
+	"path/filepath"
 	"reflect"
 	"testing"
+	"verif/internal/src"
 
 	"github.com/mandykoh/prism/meta/icc"
 	"github.com/mandykoh/prism/meta/jpegmeta"
@@ -41,6 +43,12 @@ type Case struct {
 	// Prev: the case loaded immediately before this one (only recorded for "stale" violations, which need the
 	// two loads in sequence: results handed out earlier must stay valid after later loads)
 	Prev *Case `json:"prev,omitempty"`
+	// Loader "auto": through the auto-detecting loader instead of the format's own.  Std != "": the loader reads
+	// from a standard-library reader of that type positioned after Prefix unrelated bytes (an image inside a
+	// container, a second image in a stream).
+	Loader string `json:"loader,omitempty"`
+	Std    string `json:"std,omitempty"`
+	Prefix int    `json:"prefix,omitempty"`
 }
 
 // the previous case's returned profile bytes and what they must (still) be
@@ -58,7 +66,16 @@ func check(c Case) (kind, what string) {
 		}
 	}
 	name := ld.ForFormat(c.Format)
-	o := ld.Run(name, bytes.NewReader(c.Data))
+	first := name
+	if c.Loader == "auto" {
+		first = "auto"
+	}
+	var o ld.Outcome
+	if c.Std != "" {
+		o = ld.RunStd(first, c.Std, c.Prefix, c.Data, filepath.Join(ev.Root(), "out", "run", "C06"))
+	} else {
+		o = ld.Run(first, bytes.NewReader(c.Data))
+	}
 	// results handed out by the previous load must not have been changed by this one
 	if prevICC != nil && !bytes.Equal(prevICC, prevWant) {
 		pc := prevCase
@@ -665,7 +682,7 @@ func TestC06(t *testing.T) {
 		fmt.Println("REPLAY case passed")
 		return
 	}
-	ev.Rule("rapid: payloads of boundary-biased sizes (1,2,3,..,4095/4096/4097, 8191-8193, 65518-65521, 65519k±1, 131037-131039, up to 1 MiB quick / 8 MiB thorough), compressible or incompressible or a valid ICC profile (half with random flags, intent, creator, ID; the raw bytes are read again after ICCProfile()/Description() on the same metadata value); PNG iCCP (name 1-79 bytes, store/1/6/9/huffman-only, anywhere before IDAT), JPEG APP2 (1-255 chunks of 1..65519 bytes, ascending/descending/random order, SOF before/between/after, fillers interleaved (plain segments, the real-world application-segment vocabulary - JFIF, Exif, XMP, MPF, FlashPix, Photoshop resources, Adobe - and APP2 segments with another or a near-miss identifier whose bytes 12/13 look like a chunk number and total); every permutation of <= 4 (quick) / 5 (thorough) chunks), WebP VP8X+ICCP (odd/even); no-profile variants; one damage class per case: PNG corrupt deflate (flips/truncation/adler), JPEG missing chunk / out-of-range number / inconsistent total, WebP flag without ICCP / truncated ICCP. Oracle: round trip; (nil,nil); for damage a reference model of the earliest legitimate stopping point (error mandatory before it, validity predicate after it); deflate damage judged by compress/zlib. non-trivial = distinct case with a damage class or a payload > 4096 bytes")
+	ev.Rule("rapid: payloads of boundary-biased sizes (1,2,3,..,4095/4096/4097, 8191-8193, 65518-65521, 65519k±1, 131037-131039, up to 1 MiB quick / 8 MiB thorough), compressible or incompressible or a valid ICC profile (half with random flags, intent, creator, ID; the raw bytes are read again after ICCProfile()/Description() on the same metadata value); PNG iCCP (name 1-79 bytes, store/1/6/9/huffman-only, anywhere before IDAT), JPEG APP2 (1-255 chunks of 1..65519 bytes, ascending/descending/random order, SOF before/between/after, fillers interleaved (plain segments, the real-world application-segment vocabulary - JFIF, Exif, XMP, MPF, FlashPix, Photoshop resources, Adobe - and APP2 segments with another or a near-miss identifier whose bytes 12/13 look like a chunk number and total); every permutation of <= 4 (quick) / 5 (thorough) chunks), WebP VP8X+ICCP (odd/even); no-profile variants; one damage class per case: PNG corrupt deflate (flips/truncation/adler), JPEG missing chunk / out-of-range number / inconsistent total, WebP flag without ICCP / truncated ICCP. A quarter of the files go through the auto-detecting loader, a quarter are read from a standard-library reader type positioned after 0..4096 unrelated bytes. Oracle: round trip; (nil,nil); for damage a reference model of the earliest legitimate stopping point (error mandatory before it, validity predicate after it); deflate damage judged by compress/zlib. non-trivial = distinct case with a damage class or a payload > 4096 bytes")
 	ev.Assume("harness builders; compress/zlib decides whether a damaged stream still inflates")
 	maxICC := ev.Pick(1<<20, 8<<20)
 	// all permutations of small chunk counts
@@ -761,6 +778,13 @@ func TestC06(t *testing.T) {
 		g := g
 		rapid.Check(t, func(rt *rapid.T) {
 			c := g(rt, maxICC)
+			if rapid.IntRange(0, 3).Draw(rt, "viaauto") == 0 {
+				c.Loader = "auto"
+			}
+			if len(c.Data) < 300000 && rapid.IntRange(0, 3).Draw(rt, "viastd") == 0 {
+				c.Std = rapid.SampledFrom(src.StdKinds).Draw(rt, "stdkind")
+				c.Prefix = rapid.SampledFrom([]int{0, 1, 64, 4000, 4096}).Draw(rt, "prefix")
+			}
 			ev.Eval(1)
 			if nontrivial(c) {
 				ev.NT(ev.Hash(c.Data))
